@@ -239,3 +239,46 @@ def r3(case, rec):
     m = ~np.ma.getmaskarray(a)
     require_close(np.asarray(np.ma.getdata(b), float)[m], np.asarray(np.ma.getdata(a), float)[m], 1e-9,
                   'whole model [%s] re-expressed relative to a reference size %.4g times larger' % (' '.join(lab), c), rec, key='whole-model rescaling')
+
+
+# ------------------------------------------------------------------------------------------------ X chromosome
+@st.composite
+def x_case(draw):
+    L = draw(st.integers(8, 40))
+    nu = draw(G.loguniform(0.05, 20.0))
+    # phi_1D_X has none of phi_1D's overflow guards: the scaled selection gamma*nu stays where exp() of it is representable
+    geff = draw(st.one_of(st.just(0.0), st.floats(-40.0, 40.0)))
+    return dict(L=L, nu=nu, gamma=geff / nu, h=draw(st.sampled_from([0.5, 0.5, 0.1, 0.9, 0.3])),
+                beta=draw(st.sampled_from([1.0, 0.4, 2.5])), alpha=draw(st.sampled_from([1.0, 0.5, 3.0])), theta1=draw(st.floats(0.0, 5.0)),
+                theta2=draw(st.floats(0.0, 5.0)), a=draw(st.floats(0.0, 3.0)), b=draw(st.floats(0.0, 3.0)), steps=draw(st.floats(0.5, 6.0)),
+                c=draw(G.loguniform(0.05, 20.0)), seed=draw(st.integers(0, 2 ** 31 - 1)), from_eq=draw(st.booleans()))
+
+
+@REG.relation('R4-x-chromosome', strategy=x_case, quick=(400, 8), thorough=(8000, 16))
+def r4(case, rec):
+    """The X-chromosome pair (phi_1D_X, one_pop_X; constants only): linear in (density, theta0), and unchanged when re-expressed
+    relative to a reference size c times larger - equilibrium density included."""
+    from dadi import PhiManip, Numerics
+    L, nu, gamma, h, beta, alpha, c = case['L'], case['nu'], case['gamma'], case['h'], case['beta'], case['alpha'], case['c']
+    xx = Numerics.default_grid(L)
+    rs = np.random.RandomState(case['seed'])
+    rec.case(case, gamma != 0 and (c < 0.8 or c > 1.25), ['gamma!=0' if gamma else 'gamma=0', 'h=0.5' if h == 0.5 else 'h!=0.5', 'from equilibrium' if case['from_eq'] else 'random density'])
+    kw = dict(nu=nu, gamma=gamma, h=h, beta=beta, alpha=alpha)
+    with dadi_call('phi_1D_X'):
+        eq = PhiManip.phi_1D_X(xx, theta0=1.0, **kw)
+        eq_c = PhiManip.phi_1D_X(xx, theta0=1.0 / c, nu=nu * c, gamma=gamma / c, h=h, beta=beta, alpha=alpha)
+    require(np.isfinite(eq).all() and np.isfinite(eq_c).all(), 'phi_1D_X returned non-finite values')
+    require_close(eq_c, eq, 1e-9, 'phi_1D_X re-expressed relative to a reference size %.4g times larger' % c, rec, key='X equilibrium rescaling')
+    p1 = eq if case['from_eq'] else rs.gamma(1.0, 1.0, L) + 0.01
+    p2 = rs.gamma(1.0, 1.0, L) + 0.01
+    dt = Integration.timescale_factor / max(0.25 / nu * 4, abs(gamma) * 2)      # a few steps of the rule, whatever it binds on
+    T = case['steps'] * dt
+    a, b, t1, t2 = case['a'], case['b'], case['theta1'], case['theta2']
+    with dadi_call('one_pop_X'):
+        r1_ = Integration.one_pop_X(p1, xx, T, theta0=t1, **kw)
+        r2_ = Integration.one_pop_X(p2, xx, T, theta0=t2, **kw)
+        r12 = Integration.one_pop_X(a * p1 + b * p2, xx, T, theta0=a * t1 + b * t2, **kw)
+        rc = Integration.one_pop_X(p1, xx, T * c, theta0=t1 / c, nu=nu * c, gamma=gamma / c, h=h, beta=beta, alpha=alpha)
+    scale = max(np.abs(r1_).max(), np.abs(r2_).max())
+    require_close(r12, a * r1_ + b * r2_, 1e-9, 'one_pop_X of a*phi1+b*phi2 with theta0 = a*theta1+b*theta2', rec, key='X linearity', atol=1e-12 * scale)
+    require_close(rc, r1_, 1e-9, 'one_pop_X re-expressed relative to a reference size %.4g times larger' % c, rec, key='X rescaling', atol=1e-12 * scale)
